@@ -1,6 +1,7 @@
 from .common import frame_unit, pyvc_units, EMU_FILES
 LEVEL = "other"
 EXPLANATION = ("BOUNDED (native): long-lived Sampler (~730 histories quick), QuickSampler (~440) and Analyzer (call sequences) versus a freshly created object with the same settings: after every sequence of <=2 (thorough 3) reconfiguration steps out of 14 kinds (new unitary, in-place circuit edit, parameter value, input state, herald photon number, herald mode, both together, herald swap at constant photon number, brightness, indistinguishability, backend, loss, and two reconfigurations after which reading must FAIL - wrong input length, post-selection rejecting everything) with a distribution read (or, in the warm-all variant, every kind of read) after each step, every kind of read (distribution, sample, sample_N_inputs, sample_N_outputs with fixed seeds) is identical; sampling works as the first read; an analysis result carries only quantities computed by that call. PROVED (frame pass): no emulator module writes module- or class-level mutable state. PROVED (order obligation of the same pass): the snapshot is stored only after the distribution has been computed and stored, so a recalculation that raises leaves the object out of date. PROVED (reads pass, vf/pyvc/readsframe.py): every attribute of self that the recomputation of Sampler / QuickSampler.probability_distribution reads (transitively through its helper methods) is determined by a key stored in the configuration snapshot _gen_calculation_values (reads of the recomputation are a subset of the snapshot; the per-callee reads table is trusted). PROVED LATER (pyvc): State.__init__ owns its list, so the input state held by a sampler cannot change behind the configuration snapshot.")
+EXPLANATION = EXPLANATION + ' ADDED IN ROUNDS 5-8. BOUNDED: tiny parameter updates, repeated steps, sibling closures as post-selection, sampling calls with their own criteria followed by a read, in-place edits of the held detector / circuit (incl. edits after which a fresh object refuses), default-constructed Samplers sharing nothing.'
 ASSUMPTIONS = ["bounded: histories of <=2 (quick) / <=3 (thorough) reconfiguration steps from 14 step kinds (two of them make reading fail), each followed by every kind of read"]
 TRUSTED = ["reads table of vf/pyvc/readsframe.py: which configuration keys determine circuit._build(), circuit.input_modes, source._build_statistics()", "identical code path on identical inputs gives identical floats (comparison to 1e-12)"]
 
